@@ -129,7 +129,7 @@ func growthCase(name string, gen func(d int) string, depths []int, id string) Ca
 func init() {
 	register(&Stream{
 		Name: "api",
-		Rule: "public API (Eval, Compile+Callable, Debug) on random byte/rune strings, token-level mutations (insert/delete/duplicate/swap) of generated valid programs, bracket nests up to depth 2000, long operator chains (up to 20000 terms), crossed with 14 host values (nil, structs, pointers, maps, unsupported kinds, mixed interface slices); oracles: no panic escapes, per-input time budget 2s+0.1ms/byte; growth families measured at increasing depth. Non-trivial = every case; distinct = distinct (input, host value).",
+		Rule: "public API (Eval, Compile+Callable, Debug) on random byte/rune strings, token-level mutations (insert/delete/duplicate/swap) of generated valid programs, bracket nests up to depth 2000, long operator chains (up to 3000 terms), crossed with 14 host values (nil, structs, pointers, maps, unsupported kinds, mixed interface slices); oracles: no panic escapes, per-input time budget 2s+0.1ms/byte; growth families measured at increasing depth. Non-trivial = every case; distinct = distinct (input, host value).",
 		Gen: func(r *rand.Rand, n int, thorough bool) []Case {
 			var cs []Case
 			stats := map[string]int{}
@@ -188,7 +188,7 @@ func init() {
 				cs = append(cs, apiCase(strings.Repeat("(", d), 0, "nest-unclosed"))
 				cs = append(cs, apiCase(nest("f(", ")", "1", d), 0, "nest-call"))
 			}
-			for _, k := range []int{100, 2000, 20000} {
+			for _, k := range []int{100, 1000, 3000} {
 				cs = append(cs, apiCase("1"+strings.Repeat(" + 1", k), 0, "chain-add"))
 				cs = append(cs, apiCase("[1"+strings.Repeat(", 1", k)+"]", 0, "wide-list"))
 				cs = append(cs, apiCase("1"+strings.Repeat(" ^ 1", k/10), 0, "chain-right-assoc"))
